@@ -231,6 +231,12 @@ class Engine(ExprMixin, CallMixin, BuiltinMixin, VerifyMixin):
         hook = getattr(self.reg, "coercions", {}).get((v.ty.key, ty.key))
         if hook is not None:
             return core.ufun("sf_" + hook, [v], ty)
+        if isinstance(v.ty, List) and isinstance(ty, List) and isinstance(ty.elem, Opt) and ty.elem.elem == v.ty.elem:
+            # a list of T used where a list of Optional[T] is expected: the same elements, all present
+            r = core.ufun("lift_opt", [v], ty)
+            CTX.axioms.append(core.llen(r) == core.llen(v))
+            CTX.axioms.append(core.forall_int(0, core.llen(v), lambda k: core.lget(r, k).t == core.osome(ty.elem, core.lget(v, k)).t))
+            return r
         if isinstance(v.ty, Opt) and not isinstance(ty, Opt):
             hook = getattr(self.reg, "coercions", {}).get((v.ty.elem.key, ty.key))
             if hook is not None:
